@@ -464,10 +464,11 @@ func mapByIndex[T1 comparable, T2 any](origSlice []T2, mapSlice []T1) map[T1][]T
 	result := make(map[T1][]T2)
 
 	for idx, v := range mapSlice {
-		if _, ok := result[v]; !ok {
-			result[v] = make([]T2, 0, len(mapSlice))
+		group, ok := result[v]
+		if !ok {
+			group = make([]T2, 0, len(mapSlice))
 		}
-		result[v] = append(result[v], origSlice[idx])
+		result[v] = append(group, origSlice[idx])
 	}
 
 	return result
